@@ -68,7 +68,7 @@ def parse_harnesses(spec_path):
     out = []
     for m in HARNESS_RE.finditer(txt):
         h = {'name': m.group(1), 'enforce': None, 'replace': [], 'unwind': None, 'props': [], 'when': None, 'timeout': None,
-             'loopcontracts': False, 'flags': [], 'pre_unwind': None, 'plain': None, 'solver': None, 'tier': None, 'unwindset': None, 'expect': None, 'level': None, 'mem': None, 'bounded': None, 'objbits': None}
+             'loopcontracts': False, 'flags': [], 'pre_unwind': None, 'plain': None, 'solver': None, 'tier': None, 'enumerate': None, 'unwindset': None, 'expect': None, 'level': None, 'mem': None, 'bounded': None, 'objbits': None}
         for kv in m.group(2).split():
             if '=' not in kv:
                 continue
@@ -158,7 +158,112 @@ def cbmc_results(stdout):
     return res, status, msgs
 
 
+def enum_tree_configs(env, tier, seed):
+    """concrete (occupancy, grouping, upper level) configurations of a small tree: all of them when few, a seeded sample otherwise"""
+    import random, itertools
+    dim = int(env.get('DIM', 1)); height = int(env.get('HEIGHT', 3)); nleaf = int(env.get('NLEAF', 4))
+    rng = random.Random(seed * 7919 + dim * 31 + height)
+    budget = int(env.get('NCFG', 60 if tier == 'quick' else 400))
+    allcfg = []
+    def cells_of(occ):
+        lv = [None] * height
+        lv[height - 1] = [i for i in range(nleaf) if (occ >> i) & 1]
+        for l in range(height - 2, -1, -1):
+            lv[l] = sorted({c >> dim for c in lv[l + 1]})
+        return lv
+    total = 0
+    occs = list(range(1, 1 << nleaf))
+    maxocc = int(env.get('MAXOCC', nleaf))
+    occs = [o for o in occs if bin(o).count('1') <= maxocc]
+    if len(occs) > 64:
+        occs = sorted(set([occs[-1], 1, 1 << (nleaf - 1)] + rng.sample(occs, 61)))
+    for occ in occs:
+        lv = cells_of(occ)
+        ncut = [max(0, len(c) - 1) for c in lv]
+        nposs = 1
+        for k in ncut:
+            nposs *= (1 << k)
+        picks = range(nposs) if nposs <= 16 else sorted(set([0, nposs - 1] + [rng.randrange(nposs) for _ in range(14)]))
+        for pk in picks:
+            cuts = 0
+            rest = pk
+            for l in range(height):
+                m = rest & ((1 << ncut[l]) - 1)
+                rest >>= ncut[l]
+                cuts |= m << (l * nleaf)
+            allcfg.append({'CFG_OCC': occ, 'CFG_CUTS': '%dL' % cuts, 'CFG_STOP': rng.choice([0, 1, 2, 2])})
+    if len(allcfg) > budget:
+        keep = [allcfg[0], allcfg[-1]] + rng.sample(allcfg[1:-1], budget - 2)
+        allcfg = keep
+    return allcfg
+
+
+def enum_build_configs(env, tier, seed):
+    """concrete particle sets (positions on a 9-point grid of the 1-D box), block sizes, grouping modes, optional move"""
+    import random
+    rng = random.Random(seed * 104729 + 17)
+    budget = int(env.get('NCFG', 24 if tier == 'quick' else 300))
+    maxnp = int(env.get('MAXNP', 3 if tier == 'quick' else 4))
+    cfgs = []
+    def mk(codes, bs, mode, move):
+        c = {'CFG_NP': len(codes), 'CFG_POS': '%dL' % sum(cd << (4 * i) for i, cd in enumerate(codes)), 'CFG_BS': bs, 'CFG_MODE': mode}
+        if move is not None:
+            c['CFG_MOVE'] = move
+        return c
+    # hand-picked corner cases: both box faces, cell faces, coincident points, one leaf, all leaves
+    fixed = [([0, 8], 1, 0, 4), ([8], 1, 1, 0), ([2, 2, 2], 2, 0, None), ([1, 3, 5][:maxnp], 1, 0, 7), ([0, 2, 4][:maxnp], 3, 1, None),
+             ([7, 1], 2, 1, 1), ([4, 4], 1, 0, 8), ([1, 3, 5, 7][:maxnp], 2, 0, 0), ([6, 8, 0][:maxnp], 1, 1, 3)]
+    for codes, bs, mode, move in fixed:
+        cfgs.append(mk(codes, bs, mode, move))
+    while len(cfgs) < budget:
+        n = rng.randint(1, maxnp)
+        codes = [rng.randint(0, 8) for _ in range(n)]
+        cfgs.append(mk(codes, rng.randint(1, 3), rng.randint(0, 1), rng.choice([None, rng.randint(0, 8)])))
+    return cfgs[:budget]
+
+
 def run_harness(unit, variant, h, tier='quick', keep=False):
+    if h.get('enumerate') and not h.get('_cfg'):
+        cfile, meta = extract(unit, variant)
+        if h['enumerate'] in ('tree', 'build'):
+            cfgs = (enum_tree_configs if h['enumerate'] == 'tree' else enum_build_configs)(meta['defines'], tier, int(os.environ.get('VERIF_SEED', '0')))
+        else:
+            # explicit grid, e.g. enumerate=CFG_NS:0..2;CFG_NT:0..2
+            import itertools
+            axes = []
+            for part in h['enumerate'].split(';'):
+                k, _, rng_ = part.partition(':')
+                lo, _, hi = rng_.partition('..')
+                axes.append([(k, x) for x in range(int(lo), int(hi) + 1)])
+            cfgs = [dict(c) for c in itertools.product(*axes)]
+        agg = None
+        with concurrent.futures.ThreadPoolExecutor(max_workers=NPROC) as ex:
+            futs = []
+            for i, c in enumerate(cfgs):
+                h2 = dict(h)
+                h2['_cfg'] = c
+                h2['_cfgid'] = i
+                futs.append(ex.submit(run_harness, unit, variant, h2, tier, keep))
+            rs = [f.result() for f in futs]
+        agg = dict(rs[0])
+        agg['obligations'] = []
+        agg['failed'] = []
+        agg['time'] = 0
+        agg['n_loop_inv'] = 0
+        agg['configs'] = len(cfgs)
+        agg['sample_configs'] = cfgs[:3]
+        for c, r in zip(cfgs, rs):
+            if r['status'] == 'infra':
+                agg.update(status='infra', reason='config %s: %s' % (c, r.get('reason')))
+                return agg
+            agg['obligations'] += r['obligations']
+            for o in r['failed']:
+                o['desc'] = '%s [config %s]' % (o['desc'], c)
+            agg['failed'] += r['failed']
+            agg['time'] += r['time']
+        agg['time'] = round(agg['time'], 1)
+        agg['status'] = 'fail' if agg['failed'] else 'pass'
+        return agg
     """returns dict(status=pass|fail|infra, obligations=[...], failed=[...], time=..., cmd=...)"""
     tag = variant_tag(variant)
     r = {'unit': unit['name'], 'variant': tag, 'harness': h['name'], 'enforce': h['enforce'], 'replace': h['replace']}
@@ -173,6 +278,11 @@ def run_harness(unit, variant, h, tier='quick', keep=False):
     for x in (h.get('defs') or '').split(','):
         if x:
             defs.append('-D' + x)
+    sfx = ''
+    if h.get('_cfg'):
+        for k, val in h['_cfg'].items():
+            defs.append('-D%s=%s' % (k, val))
+        sfx = '.c%d' % h['_cfgid']
     # functions named by the harness must exist
     spec_txt = open(os.path.join(ROOT, unit['spec'])).read()
     for f in ([h['enforce']] if h['enforce'] else []) + h['replace']:
@@ -182,8 +292,8 @@ def run_harness(unit, variant, h, tier='quick', keep=False):
     if h['enforce'] and not meta['functions'][h['enforce']]['body']:
         r.update(status='infra', reason='function %s has no extracted body' % h['enforce'])
         return r
-    gb1 = os.path.join(d, h['name'] + '.1.gb')
-    gb2 = os.path.join(d, h['name'] + '.2.gb')
+    gb1 = os.path.join(d, h['name'] + sfx + '.1.gb')
+    gb2 = os.path.join(d, h['name'] + sfx + '.2.gb')
     t0 = time.time()
     rc, so, se, _ = sh(['goto-cc', '-I', os.path.join(ROOT, 'contracts'), '-I', d] + defs + ['--function', h['name'], cfile, '-o', gb1], timeout=300)
     if rc != 0:
@@ -438,7 +548,7 @@ def check(prop, tier, seed=0):
                     except Infra as e:
                         infra.append(str(e))
                         continue
-                if h.get('tier') == 'thorough' and tier != 'thorough':
+                if (h.get('tier') == 'thorough' and tier != 'thorough') or h.get('tier') == 'never':
                     continue
                 jobs.append((unit, v, h))
     results = []
@@ -542,6 +652,8 @@ def check(prop, tier, seed=0):
             'violations': vio_out,
             'infra_problems': infra,
             'scope': pc.get('scope', ''),
+            'explanation': (pc.get('scope', '') + ' || unbounded contract-enforced harnesses: %d; bounded stand-ins (never counted as proved): %d' % (len(per_harness) - len(bounded), len(bounded))),
+            'configs_enumerated': sum(r.get('configs', 0) for r in results if r.get('configs')),
             'not_decided': pc.get('not_decided', []),
             'solver_seconds_total': round(sum(p['seconds'] for p in per_harness), 1),
         },
